@@ -129,4 +129,21 @@ theorem original_load_ub (qa : LQ) {recs : List Ev} (h : recs ≠ []) : LQ.load 
   unfold LQ.load
   simp [h]
 
+/-- the history `newl 1; post 1 1 5 0; post 1 2 9 0` -/
+def origOps : List Op := [.newl 1, .act (.post 1 1 5 0), .act (.post 1 2 9 0)]
+
+theorem orig_pre : ∃ s, runC Cfg.original (init 0) origOps = some s ∧
+    R s.q [⟨1, 1, 1, 5, 0, 1⟩, ⟨2, 1, 2, 9, 0, 2⟩] ∧ s.h.alive = [1] ∧ s.h.ub = false ∧ s.h.log = [] ∧
+    s.h.cancelled = [] ∧ s.h.nextOrd = 3 := by
+  have hspec : ∃ ss, Machine.run ListQ.impl (Machine.init ListQ.impl 0) origOps = some ss ∧
+      ss.q = [⟨1, 1, 1, 5, 0, 1⟩, ⟨2, 1, 2, 9, 0, 2⟩] ∧ ss.h.alive = [1] ∧ ss.h.ub = false ∧ ss.h.log = [] ∧
+      ss.h.cancelled = [] ∧ ss.h.nextOrd = 3 := ⟨_, rfl, by decide⟩
+  obtain ⟨ss, hr, h1, h2, h3, h4, h5, h6⟩ := hspec
+  obtain ⟨s, hs, _, _⟩ := reachable_of_spec hr
+  obtain ⟨ss2, hr2, _, hh, hR⟩ := refines hs
+  rw [hr] at hr2
+  cases hr2
+  have e : runC Cfg.original (init 0) origOps = run (init 0) origOps := rfl
+  refine ⟨s, by rw [e]; exact hs, by rw [← h1]; exact hR, ?_, ?_, ?_, ?_, ?_⟩ <;> rw [hh] <;> assumption
+
 end Morfuse.EventQueue
